@@ -63,26 +63,58 @@ def run(ctx: Ctx) -> None:
     ls = LockSets(caa)
     cfg = cfg_of(caa.node)
     param = [a.arg for a in caa.node.args.args if a.arg != "self"][0]
-    tests = [n for n in walk_scope(caa.node) if isinstance(n, ast.Compare) and any(isinstance(o, (ast.In, ast.NotIn)) for o in n.ops) and FIELD in {a.attr for a in ast.walk(n) if isinstance(a, ast.Attribute)}]
     inserts = [n for n in walk_scope(caa.node) if isinstance(n, (ast.Assign, ast.AugAssign)) and any(isinstance(t, ast.Subscript) and isinstance(t.value, ast.Attribute) and t.value.attr == FIELD for t in (n.targets if isinstance(n, ast.Assign) else [n.target]))]
     inserts += [n for n in walk_scope(caa.node) if isinstance(n, ast.Expr) and isinstance(n.value, ast.Call) and last_attr(n.value) in ("setdefault", "__setitem__", "update") and FIELD in {a.attr for a in ast.walk(n.value.func) if isinstance(a, ast.Attribute)}]
-    test = one(tests, "membership test on the nonce table", caa)
     ins = one(inserts, "insertion into the nonce table", caa)
-    r_test, r_ins = ls.with_region(test, LOCK), ls.with_region(ins, LOCK)
-    same = r_test is not None and r_test is r_ins
-    if same:
-        # no release/re-acquire inside the region between them (nested `with` on another lock is fine)
-        rel = [c for c in walk_scope(r_test) if isinstance(c, ast.Call) and last_attr(c) == "release" and txt(c.func.value) == LOCK]  # type: ignore[union-attr,arg-type]
-        same = not rel
-    ctx.check(same, "RF-LOCK", "test-and-insert-atomic", caa, test,
-              ok="membership test and insertion are in one `with self._lock` critical section",
-              bad="membership test and insertion are not in the same critical section (two concurrent replays can both be accepted)")
-    # replay branch returns False / fresh branch returns True
-    t_if = [n for n in walk_scope(caa.node) if isinstance(n, ast.If) and n.test is test]
-    if not t_if:
-        raise AnalysisError("C23: membership test is not an `if` condition")
-    tif = t_if[0]
-    seen_on = "T" if isinstance(test.ops[0], ast.In) else "F"
+    # lookups of the nonce in the table: `nonce in entries`, `entries.get(nonce)`, `entries[nonce]`
+    lookups: list[ast.AST] = []
+    for n in walk_scope(caa.node):
+        if isinstance(n, ast.Compare) and any(isinstance(o, (ast.In, ast.NotIn)) for o in n.ops) and FIELD in {a.attr for a in ast.walk(n) if isinstance(a, ast.Attribute)} and param in names_in(n):
+            lookups.append(n)
+        elif isinstance(n, ast.Call) and last_attr(n) == "get" and isinstance(n.func, ast.Attribute) and isinstance(n.func.value, ast.Attribute) and n.func.value.attr == FIELD and n.args and param in names_in(n.args[0]):
+            lookups.append(n)
+        elif isinstance(n, ast.Subscript) and isinstance(n.ctx, ast.Load) and isinstance(n.value, ast.Attribute) and n.value.attr == FIELD and param in names_in(n.slice):
+            lookups.append(n)
+    if not lookups:
+        ctx.fail("RF-LOCK", "test-and-insert-atomic", caa, ins, "the nonce is inserted without first being looked up: every replay is accepted")
+        raise AnalysisError("C23: no lookup of the nonce precedes the insertion")
+    r_ins = ls.with_region(ins, LOCK)
+    atomic = r_ins is not None and all(ls.with_region(lk, LOCK) is r_ins for lk in lookups)
+    if atomic:
+        rel = [c for c in walk_scope(r_ins) if isinstance(c, ast.Call) and last_attr(c) == "release" and txt(c.func.value) == LOCK]  # type: ignore[union-attr,arg-type]
+        atomic = not rel
+    ctx.check(atomic, "RF-LOCK", "test-and-insert-atomic", caa, lookups[0],
+              ok="the lookup of the nonce and its insertion are in one `with self._lock` critical section",
+              bad="a lookup of the nonce and its insertion are not in the same critical section (two concurrent replays can both observe 'not seen' and both be accepted)")
+    # the decision: the If whose test depends on the lookup (directly, or through a local bound to it)
+    lk_vars = {t.id for n in walk_scope(caa.node) if isinstance(n, ast.Assign) and any(n.value is lk for lk in lookups) for t in n.targets if isinstance(t, ast.Name)}
+    def _depends(test: ast.expr) -> bool:
+        return any(any(x is lk for lk in lookups) for x in ast.walk(test)) or bool(names_in(test) & lk_vars)
+    dec = [n for n in walk_scope(caa.node) if isinstance(n, ast.If) and _depends(n.test) and (ls.with_region(n, LOCK) is r_ins)]
+    if not dec:
+        raise AnalysisError("C23: no decision on the lookup result inside the critical section")
+    tif = dec[0]
+    clock_vars0 = {t.id for n in walk_scope(caa.node) if isinstance(n, ast.Assign) and isinstance(n.value, ast.Call) and last_attr(n.value) == "_clock" for t in n.targets if isinstance(t, ast.Name)}
+
+    def _scenario(present: bool, live: bool) -> bool:
+        env: dict[str, object] = {c: 100.0 for c in clock_vars0}
+        for lk in lookups:
+            if isinstance(lk, ast.Compare):
+                env[txt(lk)] = present if isinstance(lk.ops[0], ast.In) else (not present)
+            else:
+                env[txt(lk)] = (150.0 if live else 50.0) if present else None
+        for v in lk_vars:
+            env[v] = (150.0 if live else 50.0) if present else None
+        for a in ast.walk(tif.test):
+            if isinstance(a, ast.Attribute) and txt(a) not in env and a.attr not in (FIELD,):
+                env[txt(a)] = 30.0
+        return bool(mini_eval(tif.test, env))
+
+    live_val, absent_val, expired_val = _scenario(True, True), _scenario(False, False), _scenario(True, False)
+    if live_val == absent_val:
+        ctx.fail("RF-DOM", "replay-decision-separates-seen-from-fresh", caa, tif, f"the decision `{txt(tif.test)}` does not distinguish a remembered live nonce from an unseen one")
+        raise AnalysisError("C23: cannot orient the replay decision")
+    seen_on = "T" if live_val else "F"
     seen_targets = {v for (_u, v) in cfg.test_edges(tif, seen_on)}
     fresh_targets = {v for (_u, v) in cfg.test_edges(tif, "F" if seen_on == "T" else "T")}
     ins_nodes = cfg.done(ins)
@@ -98,13 +130,32 @@ def run(ctx: Ctx) -> None:
         return out
     ctx.check(_ret_vals(seen_reach) == {False}, "RF-DOM", "replay-returns-False", caa, tif, ok="a seen nonce returns False", bad=f"a seen nonce can return {_ret_vals(seen_reach)}")
     ctx.check(_ret_vals(fresh_reach) == {True}, "RF-DOM", "fresh-returns-True", caa, tif, ok="a fresh nonce returns True", bad=f"a fresh nonce can return {_ret_vals(fresh_reach)}")
-    # every path from the fresh edge to `return True` inserts
     true_rets = [rt for rt in rets if isinstance(rt.value, ast.Constant) and rt.value.value is True]
     avoid = set(ins_nodes)
     miss = set()
     for rt in true_rets:
         miss |= cfg.reach(fresh_targets, avoid) & cfg.done(rt)
     ctx.check(not miss, "RF-DOM", "fresh-accept-remembers", caa, ins, ok="every accepting path stores the nonce", bad="a path accepts the nonce without remembering it")
+    # insertion order must stay expiry order (the sweep and the oldest-first eviction rely on it): a key that is still
+    # present (expired but unswept) must not be re-assigned in place, because an OrderedDict keeps its old, front position
+    # and the fresh entry is then the first to be swept/evicted.
+    if expired_val != live_val:
+        # an expired-but-present entry takes the accept path: it must have been removed before the insertion
+        sweeps = [c for c in walk_scope(caa.node) if isinstance(c, ast.Call) and last_attr(c) == "_sweep"]
+        removals = [n for n in walk_scope(caa.node) if (isinstance(n, ast.Delete) and any(FIELD in txt(t) and param in names_in(t) for t in n.targets))
+                    or (isinstance(n, ast.Call) and last_attr(n) in ("pop", "move_to_end") and FIELD in txt(n.func) and n.args and param in names_in(n.args[0]))]
+        guards_: set[int] = set()
+        for x in [*sweeps, *removals]:
+            guards_ |= cfg.done(x)
+        r = cfg.reach(fresh_targets, guards_)
+        # a sweep *before* the decision also guarantees absence of expired entries
+        pre = cfg.reach({cfg.entry}, guards_)
+        unswept_before = bool(pre & cfg.attempt(tif))
+        ctx.check(not (r & cfg.attempt(ins)) or not unswept_before, "RF-DOM", "reinsert-keeps-expiry-order", caa, ins,
+                  ok="an expired entry for the same nonce is removed (swept / deleted / moved to the end) before the nonce is stored again",
+                  bad="an expired-but-unswept entry for the same nonce can be overwritten in place: it keeps its old front position in the ordered table, so the freshly accepted nonce is the first to be swept or evicted and a replay inside its window is accepted")
+    else:
+        ctx.hold("RF-DOM", "reinsert-keeps-expiry-order", caa, ins, "a present nonce never reaches the insertion (pure membership decision), so keys are only ever appended")
 
     # --- capacity: eviction loop before the insertion, same section, guard semantics
     loops = [n for n in walk_scope(caa.node) if isinstance(n, ast.While) and "capacity" in {a.attr for a in ast.walk(n.test) if isinstance(a, ast.Attribute)}]
